@@ -5,6 +5,7 @@ import NodisVerif.Model.Handler2
 import NodisVerif.Model.Handler3
 import NodisVerif.Driver.FragOps
 import NodisVerif.Driver.ProtoOps
+import NodisVerif.Driver.FloatOps
 import NodisVerif.Model.Feed
 open NodisVerif
 
@@ -39,6 +40,7 @@ def step (d : DState) (line : String) : DState × String :=
   | [] => (d, "")
   | "ck" :: _ | "dk" :: _ | "ev" :: _ => (d, Driver.codecOp toks)
   | "frag" :: rest => (d, Driver.fragOp rest)
+  | "fmtfloat" :: _ | "parsefloat" :: _ => (d, Driver.floatOp toks)
   | "pev" :: rest => let (p, out) := Driver.protoOp d.proto rest; ({ d with proto := p }, out)
   | "bev" :: rest => let (b, out) := Driver.blockOp d.block rest; ({ d with block := b }, out)
   | "gev" :: rest => let (g, out) := Driver.gateOp d.gate rest; ({ d with gate := g }, out)
